@@ -24,6 +24,7 @@ Decides:
  K5b loop exits          the tests inside a repetition look only at parse_option's result and State::len(); count() adds one on every
                            way from a success of parse_option to the next round or the exit (a success that consumed nothing - env, fallback -
                            counts).
+ B builders              the wrappers are built with catch=false and store the user's value / function / message in the field the eval reads (wiring table).
 Does not decide: which error survives for a particular nesting inside alternatives."""
 import re
 from core import *
@@ -36,7 +37,7 @@ LEVEL = 'other'
 EXPLANATION = __doc__
 ASSUMPTIONS = ['user closures (parse/guard functions, FromStr) are total and pure',
                'third-party Parser impls cannot consume items (State::remove is crate-private, see C05)']
-FLOORS = {'K1.classification': 17, 'K2.context': 20, 'K3.consult': 120, 'K4.discipline': 9, 'K5.loops': 11, 'K6.text': 7, 'E.env-absence': 2, 'T.combine': 200, 'U.usage-fallback': 1}
+FLOORS = {'K1.classification': 17, 'K2.context': 20, 'K3.consult': 120, 'K4.discipline': 9, 'K5.loops': 11, 'K6.text': 7, 'E.env-absence': 2, 'T.combine': 200, 'U.usage-fallback': 1, 'B.builders': 15}
 
 CATCHABLE = {'NoEnv', 'ParseSome', 'ParseFail', 'PureFailed', 'Missing', 'NonStrictPos'}
 
@@ -72,6 +73,8 @@ def run(ctx):
         ctx.guard(c08.keep_only, ctx, lambda: c10.usage_fallback(ctx, cfg, ctx.look(fs.one(r'^info::OptionParser::<T>::run_subparser$')), 'U.usage-fallback'), lambda o: True, 'U.usage-fallback')
         ctx.guard(c08.keep_only, ctx, lambda: c18.who(ctx, cfg, fs), lambda o: o.key.startswith(('params::', '<params::')) and 'std::env::' in o.key, 'E.env-absence')
         ctx.guard(k5, ctx, cfg, fs)
+        import wiring
+        ctx.guard(wiring.builders, ctx, cfg, fs, 'B.builders', r'^(Parser::(many|some|optional|collect|count|last|fallback|fallback_with|guard|parse|map|hide)|structs::\w+::<.*>::catch|pure|pure_with|fail|params::NamedArg::(switch|flag|req_flag)|params::build_flag_parser)$')
         ctx.guard(loop_conditions, ctx, cfg, fs)
         ctx.guard(count_counts, ctx, cfg, fs)
         ctx.guard(len_threaded, ctx, cfg, fs)
